@@ -44,6 +44,42 @@ def main():
         res["demo_without_patch_pass"] = rc0 == 0
         os.remove(dpath)
         rc, out = sh(["git", "apply", patch], cwd=wt)
+        if rc != 0:
+            # written against an older base (before later fix: commits): three-way merge, then refresh the patch
+            rc, out = sh(["git", "apply", "-3", patch], cwd=wt)
+            if rc != 0:
+                # fall back: apply the hunks that fit; a rejected hunk that only adds lines
+                # (a new top-level function) is appended to the end of its file
+                sh(["git", "checkout", "-q", "--", "."], cwd=wt)
+                sh(["git", "reset", "-q", "--hard"], cwd=wt)
+                sh(["git", "apply", "--reject", patch], cwd=wt)
+                rc = 0
+                import glob
+                for rej in glob.glob(os.path.join(wt, "**", "*.rej"), recursive=True):
+                    target = rej[:-4]
+                    added, removed = [], 0
+                    for line in open(rej).read().splitlines():
+                        if line.startswith(("diff ", "--- ", "+++ ", "@@")):
+                            continue
+                        if line.startswith("+"):
+                            added.append(line[1:])
+                        elif line.startswith("-"):
+                            removed += 1
+                    os.remove(rej)
+                    if removed:
+                        rc, out = 1, "rejected hunk is not a pure addition: " + rej
+                        break
+                    open(target, "a").write("\n" + "\n".join(added) + "\n")
+                if rc == 0:
+                    rb, ob = sh([GO, "build", "./..."], cwd=wt)
+                    if rb != 0:
+                        rc, out = 1, "rebased patch does not build: " + ob[-400:]
+                res["hunks_relocated"] = True
+            if rc == 0:
+                sh(["git", "reset", "-q"], cwd=wt)
+                rc2, newdiff = sh(["git", "diff"], cwd=wt)
+                open(os.path.join(mdir, "patch.rebased.diff"), "w").write(newdiff)
+                res["rebased"] = True
         res["patch_applies"] = rc == 0
         if rc != 0:
             res["error"] = out[-500:]
@@ -86,5 +122,26 @@ def main():
         subprocess.run(["git", "-C", "/repo", "worktree", "remove", "--force", wt], capture_output=True)
         shutil.rmtree(wt, ignore_errors=True)
     print(json.dumps(res, indent=1))
+    keep = os.environ.get("MUT_KEEP")
+    if keep and res.get("patch_applies") and res.get("existing_suite_pass") and res.get("demo_with_patch_fail") and res.get("demo_without_patch_pass"):
+        name = os.path.basename(os.path.dirname(os.path.dirname(mdir.rstrip("/")))) + "-" + os.path.basename(mdir.rstrip("/"))
+        d = os.path.join("/verif/seeded", name)
+        os.makedirs(d, exist_ok=True)
+        src = os.path.join(mdir, "patch.rebased.diff") if res.get("rebased") else patch
+        shutil.copy(src, os.path.join(d, "patch.diff"))
+        shutil.copy(os.path.join(mdir, "demo_test.go"), os.path.join(d, "demo_test.go"))
+        notes = os.path.join(mdir, "notes.md")
+        if os.path.exists(notes):
+            shutil.copy(notes, os.path.join(d, "notes.md"))
+        caught = [t for t in tiers if res.get("check_%s_exit" % t) == 1]
+        head = subprocess.check_output(["git", "-C", "/repo", "rev-parse", "--short", "HEAD"], text=True).strip()
+        meta = {"breaks_property": prop, "source": "independent sub-agent given only the property text and a scratch worktree",
+                "needs_to_manifest": "see notes.md", "patch_base": head,
+                "confirmed": {"existing_suites_pass_with_patch": True, "demo_fails_with_patch": True, "demo_passes_without_patch": True,
+                              "demo_package_dir": dd},
+                "ran": ["python3 tools/mutcheck.py %s %s %s" % (mdir, prop, " ".join(tiers))],
+                "check_result": {t: {"exit": res.get("check_%s_exit" % t), "seconds": res.get("check_%s_s" % t), "output": res.get("check_%s_out" % t)} for t in tiers if ("check_%s_exit" % t) in res},
+                "detected_by": ("./check %s %s" % (prop, caught[0])) if caught else None}
+        json.dump(meta, open(os.path.join(d, "meta.json"), "w"), indent=1)
 
 main()
